@@ -29,7 +29,10 @@ Record cfg := mkCfg {
   c_views_first : bool;      (* reader.table consults session.temp_views before the catalog *)
   c_reg_norm : normk;        (* key normalisation in createOrReplaceTempView *)
   c_tbl_norm : normk;        (* key normalisation in reader.table *)
-  c_assign_first : bool }.   (* the registry is written before catalog.add_table is called *)
+  c_assign_first : bool;     (* the registry is written before catalog.add_table is called *)
+  c_skip_own_ctes : bool;    (* session.sql: a table reference named like a CTE of the query itself is left alone *)
+  c_user_refs_only : bool }. (* session.sql: only the references of the user's query are retargeted, not the equal-
+                                looking ones inside the added view CTEs *)
 
 Definition cfg_ok (c : cfg) : bool :=
   c_frozen c && c_copy c && c_views_first c
@@ -296,7 +299,10 @@ Section Machine.
               let cs := match assoc key cache' with Some cs => cs | None => cols fr end in
               let d := mkDf [] (QSel (FName key) [] (Some (passthrough cs)) false) in
               (mkSt (s_views st) cache' (s_heap st ++ [Some d]) (s_next st), ODf d)
-          | None => (mkSt (s_views st) (cache_add c key [] (s_cache st)) (s_heap st ++ [None]) (s_next st), OErr)
+          | None =>
+              (* the engine does not know the table: an existing entry is kept, otherwise an entry without columns is made *)
+              (mkSt (s_views st) (if is_some (assoc key (s_cache st)) then s_cache st else (key, []) :: s_cache st)
+                    (s_heap st ++ [None]) (s_next st), OErr)
           end in
         match (if c_views_first c then assoc key (s_views st) else None) with
         | Some d => (push st (Some d) 0, ODf d)
@@ -312,9 +318,9 @@ Section Machine.
         | Some q1 =>
             if forallb (fun v => match assoc v (s_views st) with
                                  | Some d => is_some (last_name (d_chain d)) | None => true end)
-                       (view_refs q1 (s_views st))
+                       (view_refs (c_skip_own_ctes c) q1 (s_views st))
             then
-              let sp := splice q1 (s_views st) in
+              let sp := splice (c_skip_own_ctes c) (c_user_refs_only c) q1 (s_views st) in
               let nm := fresh (s_next st) in
               let d := mkDf (q_ctes sp ++ [(nm, q_main sp)])
                             (QSel (FName nm) [] (sel_of_static (static_cols (q_main sp))) false) in
@@ -447,6 +453,19 @@ Section Machine.
   Proof.
     intros st name name' h d Hc Hh Hn Hret. apply lookup_table_view; [exact Hc|].
     rewrite <- Hn. apply reg_views; assumption.
+  Qed.
+
+  (** with an update-or-add schema cache (the repaired catalog.add_table) a successful registration leaves
+      exactly the stored frame's column list in the cache: the cache cannot go stale by re-registering *)
+  Theorem reg_refreshes_cache : forall st name h d,
+    c_add_if_absent c = false -> heap_get (s_heap st) h = Some d ->
+    snd (mstep st (SReg name h)) = ONone ->
+    assoc (norm_key (c_reg_norm c) name) (s_cache (fst (mstep st (SReg name h))))
+    = Some (static_cols (d_leaf (stored st d))).
+  Proof.
+    intros st name h d Ha Hh. cbn [mstep]. rewrite Hh, Ha. cbn [andb negb]. unfold stored.
+    destruct (has_star _); cbn [fst snd s_cache]; [discriminate|]. intros _.
+    unfold cache_add. rewrite Ha. cbn [andb assoc]. rewrite String.eqb_refl. reflexivity.
   Qed.
 
   (** steps that do not register the key leave its registry entry alone *)
